@@ -1517,6 +1517,202 @@ fn events_burst_ops(case: usize) -> Vec<String> {
     ops
 }
 
+/// volume scenarios: many packets in flight before an ack is processed; packet sequence numbers crossing a varint
+/// width inside one flush; a tick whose unreliable traffic needs several packets next to reliable traffic, with the
+/// reliable packet lost
+
+fn pat(len: usize, seed: u8) -> Vec<u8> {
+    (0..len).map(|i| seed.wrapping_add((i % 251) as u8)).collect()
+}
+
+fn volume_ops(case: usize) -> Vec<String> {
+    let mut ops: Vec<String> = vec![];
+    let chans = |resend: u64| -> Vec<Chan> {
+        vec![
+            Chan { id: 0, kind: "U", max_mem: 5 * 1024 * 1024, resend_us: 0 },
+            Chan { id: 1, kind: "RU", max_mem: 5 * 1024 * 1024, resend_us: resend },
+            Chan { id: 2, kind: "RO", max_mem: 5 * 1024 * 1024, resend_us: resend },
+        ]
+    };
+    match case {
+        0 | 1 => {
+            // > 1024 packets sent between a reliable packet and the processing of its acknowledgement, all within 3 s
+            let c = chans(500_000);
+            ops.push(cfg_line(60_000, &c, &c));
+            ops.extend(["cli 0", "add 100", "setc 0"].iter().map(|x| x.to_string()));
+            let ch = if case == 0 { 2 } else { 1 };
+            ops.push(format!("send c0 {} {}", ch, hex(&pat(40, 1))));
+            ops.push(format!("send c0 {} {}", ch, hex(&pat(3000, 2))));
+            ops.push("upd c0 1000".into());
+            ops.push("upd srv 1000".into());
+            ops.push("flush c0".into()); // packets 0..3
+            for k in 0..4 {
+                ops.push(format!("dlv s100 c0 {}", k));
+            }
+            ops.push(format!("recv s100 {}", ch));
+            ops.push(format!("recv s100 {}", ch));
+            ops.push("flush s100".into()); // the ack packet, held back
+            let big = hex(&pat(60_000, 7));
+            for _ in 0..27 {
+                ops.push(format!("send c0 0 {}", big)); // 50 slice packets per tick
+                ops.push("upd c0 10000".into());
+                ops.push("flush c0".into());
+            }
+            ops.push("dump c0".into());
+            ops.push("dlv c0 s100 0".into()); // 271 ms after the packets were sent
+            ops.push("dump c0".into());
+            ops.push("upd c0 600000".into());
+            ops.push("flush c0".into());
+            ops.push("upd c0 600000".into());
+            ops.push("flush c0".into());
+            ops.push("stat c0".into());
+            ops.push("stat s100".into());
+        }
+        2 | 3 => {
+            // the packet sequence crosses 16383 -> 16384 (2 -> 4 varint bytes) inside one flush of many small messages
+            let c = chans(300_000);
+            ops.push(cfg_line(60_000, &c, &c));
+            ops.extend(["cli 0", "add 100", "setc 0"].iter().map(|x| x.to_string()));
+            for _ in 0..16_383 {
+                ops.push("send c0 0 aa".into());
+                ops.push("flush c0".into());
+            }
+            if case == 2 {
+                for k in 0..9 {
+                    ops.push(format!("send c0 0 {}", hex(&pat(429, k as u8))));
+                }
+            } else {
+                for k in 0..1500u32 {
+                    ops.push(format!("send c0 0 {}", hex(&[(k % 256) as u8, (k / 256) as u8])));
+                }
+            }
+            ops.push(format!("send c0 1 {}", hex(&pat(700, 9))));
+            ops.push("upd c0 1000".into());
+            ops.push("flush c0".into());
+            ops.push("stat c0".into());
+            ops.push("dump c0".into());
+        }
+        _ => {
+            // one tick: unreliable small messages that need two packets + reliable traffic; the reliable packet is lost,
+            // everything else arrives and is acknowledged; then a perfect network
+            let c = if case == 4 { chans(300_000) } else { vec![chans(300_000)[0].clone(), chans(300_000)[2].clone(), chans(300_000)[1].clone()] };
+            ops.push(cfg_line(60_000, &c, &c));
+            ops.extend(["cli 0", "add 100", "setc 0"].iter().map(|x| x.to_string()));
+            let rel = if case == 4 { 2 } else { 1 };
+            for k in 0..3 {
+                ops.push(format!("send c0 0 {}", hex(&pat(500, 10 + k))));
+            }
+            ops.push(format!("send c0 {} {}", rel, hex(&pat(100, 50))));
+            ops.push(format!("send c0 {} {}", rel, hex(&pat(100, 51))));
+            ops.push("upd c0 16000".into());
+            ops.push("upd srv 16000".into());
+            ops.push("flush c0".into()); // U, U, R
+            ops.push("dlv s100 c0 0".into());
+            ops.push("dlv s100 c0 1".into()); // packet 2 (reliable) is lost
+            ops.push("recv s100 0".into());
+            ops.push("recv s100 0".into());
+            ops.push("recv s100 0".into());
+            ops.push("dump s100".into());
+            ops.push("flush s100".into());
+            ops.push("dlv c0 s100 0".into());
+            ops.push("dump c0".into());
+            let mut next = 3usize;
+            let mut next_s = 1usize;
+            for _ in 0..6 {
+                ops.push("upd c0 301000".into());
+                ops.push("upd srv 301000".into());
+                ops.push("flush c0".into());
+                // at most two packets per tick are expected here; deliver generously (missing indexes answer nohist on
+                // both sides alike)
+                for k in 0..2 {
+                    ops.push(format!("dlv s100 c0 {}", next + k));
+                }
+                next += 2;
+                ops.push(format!("recv s100 {}", rel));
+                ops.push(format!("recv s100 {}", rel));
+                ops.push("flush s100".into());
+                ops.push(format!("dlv c0 s100 {}", next_s));
+                next_s += 1;
+            }
+            ops.push("dump c0".into());
+            ops.push("stat c0".into());
+            ops.push("stat s100".into());
+            ops.push("note healed".into());
+        }
+    }
+    ops
+}
+
+/// bounded sweep over THREE correlated hostile packets about one message id on a reliable channel: slices announcing
+/// different counts, a small message reusing the id, interleaved with a receive
+const TRIPLE_ALPHABET: usize = 7;
+const SWEEP_TRIPLES_N: usize = 2 * 2 * TRIPLE_ALPHABET * TRIPLE_ALPHABET * TRIPLE_ALPHABET;
+
+fn sweep_triples_ops(mut case: usize) -> Vec<String> {
+    let mut take = |n: usize| -> usize {
+        let v = case % n;
+        case /= n;
+        v
+    };
+    let ch: u8 = [2u8, 1][take(2)];
+    let recv_between = take(2) == 1;
+    let full = vec![9u8; 1200];
+    let item = |k: usize, seq: u64| -> String {
+        match k {
+            0 => slice_pkt(2, seq, ch, 0, 0, 2, &full),
+            1 => slice_pkt(2, seq, ch, 0, 1, 2, &[7u8; 10]),
+            2 => slice_pkt(2, seq, ch, 0, 0, 5, &full),
+            3 => slice_pkt(2, seq, ch, 0, 1, 1000, &full),
+            4 => slice_pkt(2, seq, ch, 0, 0, 1, &[5u8; 100]),
+            5 => {
+                // a small reliable message with the same id 0
+                let mut b = vec![0u8];
+                b.extend(varint(seq));
+                b.push(ch);
+                b.extend(1u16.to_be_bytes());
+                b.extend(varint(0));
+                b.extend(varint(3));
+                b.extend([1u8, 2, 3]);
+                hex(&b)
+            }
+            _ => {
+                let mut b = vec![0u8];
+                b.extend(varint(seq));
+                b.push(ch);
+                b.extend(1u16.to_be_bytes());
+                b.extend(varint(1));
+                b.extend(varint(2));
+                b.extend([4u8, 5]);
+                hex(&b)
+            }
+        }
+    };
+    let (a, b, c) = (take(TRIPLE_ALPHABET), take(TRIPLE_ALPHABET), take(TRIPLE_ALPHABET));
+    let small_budget = vec![
+        Chan { id: 0, kind: "U", max_mem: 10_000, resend_us: 0 },
+        Chan { id: 1, kind: "RU", max_mem: 10_000, resend_us: 300_000 },
+        Chan { id: 2, kind: "RO", max_mem: 10_000, resend_us: 300_000 },
+    ];
+    let mut ops = vec![cfg_line(60_000, &small_budget, &small_budget), "cli 0".to_string(), "add 100".to_string(), "cli 1".to_string(), "add 101".to_string()];
+    ops.push(format!("raw s100 {}", item(a, 1)));
+    ops.push("dump s100".into());
+    if recv_between {
+        ops.push(format!("recv s100 {}", ch));
+    }
+    ops.push(format!("raw s100 {}", item(b, 2)));
+    ops.push("dump s100".into());
+    ops.push(format!("raw s100 {}", item(c, 3)));
+    ops.push("stat s100".into());
+    ops.push("dump s100".into());
+    ops.push(format!("recv s100 {}", ch));
+    ops.push(format!("recv s100 {}", ch));
+    ops.push("dump s100".into());
+    ops.push("upd srv 3100000".into());
+    ops.push("flush s100".into());
+    ops.push("stat s101".into());
+    ops
+}
+
 const SWEEP_ACKS_N: usize = 13_700;
 
 /// the range list at / around its cap: n single-element ranges 10, 12, 14, …, then one or two late or new
@@ -2126,6 +2322,46 @@ pub fn profiles() -> Vec<Profile> {
         nontrivial: |_| true,
         keep: |_| 5,
         fixed: Some(sweep_slices_ops),
+    },
+    Profile {
+        name: "rn-volume-acks",
+        props: &["C15", "C08"],
+        cases: |_| 2,
+        new_world,
+        script: script_none,
+        nontrivial: |_| true,
+        keep: |_| 4,
+        fixed: Some(|c| volume_ops(c)),
+    },
+    Profile {
+        name: "rn-volume-seq",
+        props: &["C13", "C16"],
+        cases: |_| 2,
+        new_world,
+        script: script_none,
+        nontrivial: |_| true,
+        keep: |_| 4,
+        fixed: Some(|c| volume_ops(2 + c)),
+    },
+    Profile {
+        name: "rn-volume-mixed",
+        props: &["C01", "C02", "C08", "C13"],
+        cases: |_| 2,
+        new_world,
+        script: script_none,
+        nontrivial: |_| true,
+        keep: |_| 4,
+        fixed: Some(|c| volume_ops(4 + c)),
+    },
+    Profile {
+        name: "rn-sweep-triples",
+        props: &["C06", "C09"],
+        cases: |_| SWEEP_TRIPLES_N,
+        new_world,
+        script: script_none,
+        nontrivial: |_| true,
+        keep: |_| 5,
+        fixed: Some(sweep_triples_ops),
     },
     Profile {
         name: "rn-events-burst",
@@ -3394,8 +3630,8 @@ fn oracle_c08(ops: &[String], outs: &[String]) -> Option<OracleFail> {
 
 pub fn oracles() -> Vec<Oracle> {
     vec![
-        Oracle { prop: "C01", name: "ordered-prefix", engines: &["rn-pair", "rn-multi", "rn-timing", "rn-long", "rn-acks", "rn-tight"], check: oracle_c01 },
-        Oracle { prop: "C02", name: "unordered-once", engines: &["rn-pair", "rn-multi", "rn-timing", "rn-long", "rn-acks", "rn-tight", "rn-regress"], check: oracle_c02 },
+        Oracle { prop: "C01", name: "ordered-prefix", engines: &["rn-pair", "rn-multi", "rn-timing", "rn-long", "rn-acks", "rn-tight", "rn-volume"], check: oracle_c01 },
+        Oracle { prop: "C02", name: "unordered-once", engines: &["rn-pair", "rn-multi", "rn-timing", "rn-long", "rn-acks", "rn-tight", "rn-regress", "rn-volume"], check: oracle_c02 },
         Oracle { prop: "C03", name: "integrity", engines: &["rn-pair", "rn-unrel"], check: oracle_c03 },
         Oracle { prop: "C02", name: "bulk", engines: &["rn-huge"], check: oracle_bulk },
         Oracle { prop: "C01", name: "bulk", engines: &["rn-huge"], check: oracle_bulk },
@@ -3410,18 +3646,18 @@ pub fn oracles() -> Vec<Oracle> {
         Oracle { prop: "C02", name: "duplicates-harmless", engines: &["rn-tight", "rn-pair", "rn-timing"], check: oracle_duplicates_harmless },
         Oracle { prop: "C12", name: "server-queries", engines: &["rn-api"], check: oracle_server_queries },
         Oracle { prop: "C11", name: "server-queries", engines: &["rn-api"], check: oracle_server_queries },
-        Oracle { prop: "C15", name: "never-after-ack-processed", engines: &["rn-pair", "rn-timing", "rn-acks", "rn-tight", "rn-long", "rn-unrel"], check: oracle_c15_acked },
+        Oracle { prop: "C15", name: "never-after-ack-processed", engines: &["rn-pair", "rn-timing", "rn-acks", "rn-tight", "rn-long", "rn-unrel", "rn-volume"], check: oracle_c15_acked },
         Oracle { prop: "C14", name: "unreliable-work-conserving", engines: &["rn-unrel", "rn-pair", "rn-timing", "rn-long"], check: oracle_unrel_work_conserving },
         Oracle { prop: "C11", name: "unreliable-work-conserving", engines: &["rn-unrel", "rn-pair", "rn-timing", "rn-long"], check: oracle_unrel_work_conserving },
         Oracle { prop: "C09", name: "unreliable-in-budget", engines: &["rn-unrel"], check: oracle_unrel_budget },
         Oracle { prop: "C03", name: "unreliable-in-budget", engines: &["rn-unrel"], check: oracle_unrel_budget },
-        Oracle { prop: "C09", name: "accounting", engines: &["rn-pair", "rn-hostile", "rn-regress", "rn-long", "rn-timing", "rn-acks", "rn-tight", "rn-sweep-slices"], check: oracle_c09 },
+        Oracle { prop: "C09", name: "accounting", engines: &["rn-pair", "rn-hostile", "rn-regress", "rn-long", "rn-timing", "rn-acks", "rn-tight", "rn-sweep-slices", "rn-sweep-triples"], check: oracle_c09 },
         Oracle { prop: "C12", name: "finality-events", engines: &["rn-api", "rn-regress", "rn-hostile", "rn-events-burst"], check: oracle_c12 },
-        Oracle { prop: "C13", name: "packet-size", engines: &["rn-pair", "rn-regress", "rn-multi", "rn-hostile", "rn-long", "rn-timing", "rn-acks"], check: oracle_c13 },
+        Oracle { prop: "C13", name: "packet-size", engines: &["rn-pair", "rn-regress", "rn-multi", "rn-hostile", "rn-long", "rn-timing", "rn-acks", "rn-volume", "rn-unrel"], check: oracle_c13 },
         Oracle { prop: "C14", name: "budget", engines: &["rn-pair", "rn-multi", "rn-unrel", "rn-timing"], check: oracle_c14 },
         Oracle { prop: "C15", name: "resend-timing", engines: &["rn-pair", "rn-timing"], check: oracle_c15 },
         Oracle { prop: "C15", name: "prompt-and-final", engines: &["rn-timing"], check: oracle_c15_prompt },
-        Oracle { prop: "C08", name: "release-after-delivery", engines: &["rn-pair", "rn-timing", "rn-long", "rn-acks"], check: oracle_c08 },
+        Oracle { prop: "C08", name: "release-after-delivery", engines: &["rn-pair", "rn-timing", "rn-long", "rn-acks", "rn-volume"], check: oracle_c08 },
         Oracle { prop: "C11", name: "isolation-ordered", engines: &["rn-multi"], check: oracle_c01 },
         Oracle { prop: "C11", name: "isolation-unordered", engines: &["rn-multi"], check: oracle_c02 },
     ]
